@@ -294,7 +294,7 @@ def r10_5(ctx):
                     ctx.require(b is not None and astq.const_value(b) is False, 'R10.5', f'{c.name}.{name}.multi_receive@{call.lineno}',
                                 ctx.where(fn, call), 'multi_receive() is called under the port lock without block=False: it sleeps (and never ends) holding the lock',
                                 construct=f'{fn.qname}::multi_receive-blocking')
-    ctx.floor('R10.5', n, 2)
+    ctx.floor('R10.5', n, 1)
     audit = run_audit(ctx)
     for inst, w, cons, code, text in audit['problems']:
         if code == 'sleep-under-lock':
